@@ -26,7 +26,7 @@ SPEC = dict(
     exhaustive={'quick': _EXH, 'thorough': _EXH},
     require=['table-reinitialised-over-adversarial-contents', 'giant-message-at-once-vs-pieces', 'large-message-lengths', 'table-entry-msb-first', 'table-entry-lsb-first', 'table-reflection-relation',
              'crc-vs-bitwise-division-msb-first', 'crc-vs-bitwise-division-lsb-first', 'crc-vs-coefficient-long-division',
-             'crc-reflection-relation',
+             'crc-reflection-relation', 'crc-message-containing-its-own-running-register',
              'crc-two-pieces-every-split', 'crc-three-pieces-every-split',
              'crc-two-pieces-random-split', 'crc-three-pieces-random-split', 'crc-many-chunks',
              'hash-len-form-vs-sum-definition', 'hash-str-form-vs-sum-definition', 'hash-str-form-vs-len-form',
